@@ -46,6 +46,10 @@ func checkC06(r *Report, p *Program) {
 	r06_5(r, p)
 	// the observed (cached) child that was compared is not edited behind the comparison
 	r17_1(r, p)
+	// what is compared is the merge of one and the same desired object (status reverted, not stripped) — shared with C05
+	r05_4(r, p)
+	// a delete addresses exactly the observed child it decided about (name, namespace, UID from one object) — shared with C02
+	r02_1(r, p, computeChildRoles(p))
 }
 
 // R06.1 method decision table.
@@ -92,7 +96,14 @@ func r06_1(r *Report, p *Program) {
 				if iface, _, ok := engine.ClassifySink(k); ok && iface == "dyn" {
 					return true
 				}
-				return k == "builtin.append"
+				if k == "builtin.append" {
+					return true
+				}
+				// a write moved into a helper is still that write
+				if h := engine.StaticFn(ci.Common()); h != nil && h != f && len(calleeVerbSigs(p, h, 1)) > 0 {
+					return true
+				}
+				return false
 			}
 			opts := engine.EnumOpts{Start: gm.Instr.Block(), Effect: isSink}
 			if loop != nil {
@@ -121,7 +132,7 @@ func r06_1(r *Report, p *Program) {
 					}
 				}
 				// effects before the call in its own block do not belong to the region: drop those preceding gm
-				var verbs []string
+				sigs := []string{""}
 				started := false
 				for _, e := range pa.Effects {
 					if e.Block() == gm.Instr.Block() && !started {
@@ -131,13 +142,35 @@ func r06_1(r *Report, p *Program) {
 						}
 					}
 					started = true
-					verbs = append(verbs, verbsOf([]ssa.Instruction{e})...)
+					alts := verbsOf([]ssa.Instruction{e})
+					if ci, isC := e.(ssa.CallInstruction); isC {
+						if _, _, isS := engine.ClassifySink(engine.CallKey(ci.Common())); !isS {
+							if hs := calleeVerbSigs(p, engine.StaticFn(ci.Common()), 1); len(hs) > 0 {
+								alts = hs
+							}
+						}
+					}
+					var nx []string
+					for _, sg := range sigs {
+						for _, a := range alts {
+							switch {
+							case sg == "":
+								nx = append(nx, a)
+							case a == "":
+								nx = append(nx, sg)
+							default:
+								nx = append(nx, sg+","+a)
+							}
+						}
+					}
+					sigs = nx
 				}
-				sig := strings.Join(verbs, ",")
 				if table[class] == nil {
 					table[class] = map[string]bool{}
 				}
-				table[class][sig] = true
+				for _, sg := range sigs {
+					table[class][sg] = true
+				}
 				npaths[class]++
 			}
 			var rows []row
@@ -276,44 +309,48 @@ func noWriteWhenEqual(r *Report, p *Program, rule string) {
 	r.Rule(rule, "every child Update/Delete sink is reached only across 'observed.GetDeletionTimestamp()==nil'; every Update, and every Delete in a function that computes ApplyUpdate, only across '!DeepEqual(merged, observed)'")
 	r.Floor(rule, 5)
 	sinks, _ := childSinks(p)
-	for _, s := range sinks {
+	for _, s := range effectiveSinks(p, sinks) {
 		if s.Verb != "Update" && s.Verb != "Delete" && s.Verb != "UpdateStatus" {
 			continue
 		}
-		f := s.Fn
 		in := s.Instr.(ssa.Instruction)
 		// (a) pending deletion
-		w := unguarded(f, nil, in, func(l Lit) bool {
-			v, isNil, ok := l.NilTest()
-			if !ok || !isNil {
-				return false
+		w := guardedInSomeFrame(s, func(f *ssa.Function) func(l Lit) bool {
+			return func(l Lit) bool {
+				v, isNil, ok := l.NilTest()
+				if !ok || !isNil {
+					return false
+				}
+				c := callOf(v)
+				if c == nil || !strings.HasSuffix(engine.CallKey(c.Common()), ".GetDeletionTimestamp") {
+					return false
+				}
+				recv := engine.CallSite{Fn: f, Instr: c}.Recv()
+				return fromParamElem(f, recv, "observed")
 			}
-			c := callOf(v)
-			if c == nil || !strings.HasSuffix(engine.CallKey(c.Common()), ".GetDeletionTimestamp") {
-				return false
-			}
-			recv := engine.CallSite{Fn: f, Instr: c}.Recv()
-			return fromParamElem(f, recv, "observed")
 		})
 		r.Check(rule, s.Construct()+"[not-terminating]", p.InstrPos(in), w == nil,
 			"sink only reachable across observed.GetDeletionTimestamp()==nil", "child "+s.Verb+" reachable for a child pending deletion; "+pathWhy(w))
 		// (b) difference guard where a merged object exists
-		aus := callsTo(f, false, "controller/common.ApplyUpdate")
-		if s.Verb == "Update" || len(aus) > 0 && dominatedByAny(f, in, aus) {
-			w := unguarded(f, nil, in, func(l Lit) bool {
-				if l.Pos || !isDeepEqualLit(l) {
-					return false
+		of := s.Outer()
+		aus := callsTo(of.Fn, false, "controller/common.ApplyUpdate")
+		if s.Verb == "Update" || len(aus) > 0 && dominatedByAny(of.Fn, of.At, aus) {
+			w := guardedInSomeFrame(s, func(f *ssa.Function) func(l Lit) bool {
+				return func(l Lit) bool {
+					if l.Pos || !isDeepEqualLit(l) {
+						return false
+					}
+					c := l.Cond.(*ssa.Call)
+					args := c.Common().Args
+					if len(args) != 2 {
+						return false
+					}
+					// one side is the merge result, the other the observed object
+					m0, m1 := fromApplyUpdate(args[0]), fromApplyUpdate(args[1])
+					o0 := fromParamElemThrough(f, args[0], "observed")
+					o1 := fromParamElemThrough(f, args[1], "observed")
+					return (m0 && o1) || (m1 && o0)
 				}
-				c := l.Cond.(*ssa.Call)
-				args := c.Common().Args
-				if len(args) != 2 {
-					return false
-				}
-				// one side is the merge result, the other the observed object
-				m0, m1 := fromApplyUpdate(args[0]), fromApplyUpdate(args[1])
-				o0 := fromParamElemThrough(f, args[0], "observed")
-				o1 := fromParamElemThrough(f, args[1], "observed")
-				return (m0 && o1) || (m1 && o0)
 			})
 			r.Check(rule, s.Construct()+"[differs]", p.InstrPos(in), w == nil,
 				"sink only reachable across !DeepEqual(ApplyUpdate(observed,desired), observed)", "child "+s.Verb+" reachable although merged state equals observed (or the comparison is not between merge result and observed); "+pathWhy(w))
@@ -375,7 +412,8 @@ func r06_3(r *Report, p *Program) {
 	const rule = "R06.3"
 	r.Rule(rule, "every dynamic-client Delete passes DeleteOptions.PropagationPolicy = &DeletePropagationBackground")
 	r.Floor(rule, 2)
-	for _, s := range engine.Sinks(p.Scanned) {
+	for _, es := range effectiveSinks(p, engine.Sinks(p.Scanned)) {
+		s := es.Sink
 		if s.Iface != "dyn" || s.Verb != "Delete" {
 			continue
 		}
@@ -396,7 +434,7 @@ func r06_3(r *Report, p *Program) {
 			}
 			return true, ""
 		})
-		r.Check(rule, s.Construct(), p.InstrPos(in), ok, "DeleteOptions.PropagationPolicy=&\"Background\"", why)
+		r.Check(rule, es.Construct(), p.InstrPos(in), ok, "DeleteOptions.PropagationPolicy=&\"Background\"", why)
 	}
 }
 
